@@ -250,3 +250,333 @@ Proof.
   intros base upper H. unfold print_nat. cbn.
   destruct (N.ltb_spec 0 base); [reflexivity|lia].
 Qed.
+
+(* ================================================================== integers: "%li" *)
+
+Lemma wrap_signed_id : forall half z, (0 < half)%Z -> (- half <= z < half)%Z ->
+  wrap_signed (2 * half) half z = z.
+Proof.
+  intros half z Hh Hz. unfold wrap_signed.
+  destruct (Z.ltb_spec (z mod (2 * half)) half) as [H|H].
+  - destruct (Z.neg_nonneg_cases z) as [Hn|Hn].
+    + exfalso. rewrite <- (Z.mod_add z 1 (2 * half)) in H by lia.
+      rewrite Z.mod_small in H; lia.
+    + rewrite Z.mod_small; lia.
+  - destruct (Z.neg_nonneg_cases z) as [Hn|Hn].
+    + rewrite <- (Z.mod_add z 1 (2 * half)) by lia. rewrite Z.mod_small; lia.
+    + rewrite Z.mod_small in H; lia.
+Qed.
+
+(* what may follow the text of an integer so that the token ends there *)
+Definition stops_int (rest : text) : Prop :=
+  match rest with
+  | [] => True
+  | c :: _ => digit_in 10 c = None /\ c <> c_x /\ c <> c_X
+  end.
+
+Lemma digit_in_8_10 : forall c, digit_in 10 c = None -> digit_in 8 c = None.
+Proof.
+  intros c. unfold digit_in. destruct (digit_val c) as [d|]; [|reflexivity].
+  nb; congruence.
+Qed.
+
+Lemma stops_int_stops : forall base rest, base = 8 \/ base = 10 -> stops_int rest -> stops base rest.
+Proof.
+  intros base rest Hb H. destruct rest as [|c r]; [exact I|]. simpl in *.
+  destruct H as [H _]. destruct Hb; subst; [now apply digit_in_8_10|assumption].
+Qed.
+
+Lemma has_hex_prefix_nonzero : forall b0 d0 t, d0 <> c_zero -> has_hex_prefix b0 (d0 :: t) = false.
+Proof.
+  intros b0 d0 t H. unfold has_hex_prefix. destruct t as [|x [|h r]]; try reflexivity.
+  apply N.eqb_neq in H. now rewrite H.
+Qed.
+
+(* base detection of %i on decimal text without a leading zero (or the single digit 0) *)
+Lemma scan_int_body_dec : forall mag rest n2, stops_int rest ->
+  scan_int_body 0 (print_nat 10 false mag ++ rest) n2
+  = Some (mag, (n2 + length (print_nat 10 false mag))%nat).
+Proof.
+  intros mag rest n2 Hr. destruct (N.eq_dec mag 0) as [->|Hm].
+  - rewrite print_nat_zero by lia. unfold scan_int_body.
+    assert (Hp : has_hex_prefix 0 ([c_zero] ++ rest) = false).
+    { destruct rest as [|x [|h r]]; try reflexivity. simpl in Hr. destruct Hr as (_ & Hx & HX).
+      apply N.eqb_neq in Hx, HX. unfold has_hex_prefix. cbn [app]. rewrite Hx, HX. reflexivity. }
+    rewrite Hp. cbn [app N.eqb]. replace (c_zero =? c_zero) with true by reflexivity.
+    cbn [scan_digits]. replace (digit_in 8 c_zero) with (Some 0) by reflexivity.
+    rewrite scan_digits_stop by (apply stops_int_stops; [now left|assumption]).
+    reflexivity.
+  - destruct (print_nat_head 10 false ltac:(lia) ltac:(lia) mag ltac:(lia)) as (d0 & t & E & Hd).
+    unfold scan_int_body. rewrite E. cbn [app]. rewrite has_hex_prefix_nonzero by assumption.
+    cbn [N.eqb]. apply N.eqb_neq in Hd. rewrite Hd.
+    change (d0 :: t ++ rest) with ((d0 :: t) ++ rest). rewrite <- E.
+    rewrite scan_digits_app by (apply print_nat_all; lia).
+    rewrite scan_digits_stop by (apply stops_int_stops; [now right|assumption]).
+    rewrite print_nat_value by lia.
+    destruct (length (print_nat 10 false mag)) eqn:El.
+    + exfalso. apply (print_nat_nonempty 10 false mag). now apply length_zero_iff_nil.
+    + reflexivity.
+Qed.
+
+Lemma skip_ws_nonspace : forall c r n, is_space c = false -> skip_ws (c :: r) n = (c :: r, n).
+Proof. intros c r n H. simpl. now rewrite H. Qed.
+
+Lemma digit_not_space : forall base c, digit_in base c <> None -> is_space c = false.
+Proof.
+  intros base c H. unfold digit_in, digit_val in H. unfold is_space.
+  revert H. nb; congruence.
+Qed.
+
+Lemma digit_not_sign : forall base c, digit_in base c <> None -> (c =? c_minus) = false /\ (c =? c_plus) = false.
+Proof.
+  intros base c H. unfold digit_in, digit_val in H. unfold c_minus, c_plus.
+  revert H. nb; try congruence; split; reflexivity.
+Qed.
+
+(* the text "%li" writes for an int64 *)
+Lemma print_int_li : forall z, (- two63 <= z < two63)%Z ->
+  print_int spec_li z = (if (z <? 0)%Z then [c_minus] else []) ++ print_nat 10 false (Z.to_N (Z.abs z)).
+Proof.
+  intros z Hz. unfold print_int. cbn [spec_li n_conv n_long n_plus n_space n_zero n_alt n_width].
+  unfold int_arg. cbn [spec_li n_conv n_long]. replace (conv_signed 105) with true by reflexivity.
+  assert (Hw : wrap_signed two64 two63 z = z).
+  { change two64 with (2 * two63)%Z. apply wrap_signed_id; unfold two63 in *; lia. }
+  rewrite Hw.
+  replace (conv_base 105) with 10 by reflexivity. replace (105 =? 88) with false by reflexivity.
+  unfold pad. cbn [Nat.sub repeat app]. reflexivity.
+Qed.
+
+Lemma print_nat_head_or_zero : forall mag, exists d0 t,
+  print_nat 10 false mag = d0 :: t /\ digit_in 10 d0 <> None.
+Proof.
+  intros mag. pose proof (print_nat_all 10 false ltac:(lia) ltac:(lia) mag) as Ha.
+  pose proof (print_nat_nonempty 10 false mag) as Hn.
+  destruct (print_nat 10 false mag) as [|d0 t]; [congruence|].
+  exists d0, t. split; [reflexivity|]. now inversion Ha.
+Qed.
+
+Theorem int_li_roundtrip : forall cf z rest, (- two63 <= z < two63)%Z -> stops_int rest ->
+  scan_num cf spec_li (print_num spec_li (VInt z) ++ rest)
+  = Some (VInt z, length (print_num spec_li (VInt z))).
+Proof.
+  intros cf z rest Hz Hr. unfold print_num, scan_num.
+  cbn [spec_li n_conv]. replace (conv_is_int 105) with true by reflexivity.
+  rewrite print_int_li by assumption. unfold scan_int_text.
+  replace (105 =? 105) with true by reflexivity.
+  set (mag := Z.to_N (Z.abs z)).
+  destruct (print_nat_head_or_zero mag) as (d0 & t & E & Hd0).
+  destruct (Z.ltb_spec z 0) as [Hneg|Hpos].
+  - cbn [app]. rewrite skip_ws_nonspace by reflexivity.
+    cbn [scan_sign]. replace (c_minus =? c_minus) with true by reflexivity.
+    rewrite scan_int_body_dec by assumption.
+    assert (Hst : store_int (cf_int_signext cf) spec_li true mag = z).
+    { unfold store_int. cbn [spec_li n_conv n_long].
+      replace (conv_signed 105) with true by reflexivity.
+      subst mag. rewrite Z2N.id by lia.
+      destruct (Z.ltb_spec two63 (Z.abs z)); [unfold two63 in *; lia|].
+      change two64 with (2 * two63)%Z. rewrite wrap_signed_id; unfold two63 in *; lia. }
+    rewrite Hst. reflexivity.
+  - cbn [app]. rewrite E. cbn [app].
+    destruct (digit_not_sign 10 d0 Hd0) as [Hm Hp].
+    rewrite skip_ws_nonspace by (apply (digit_not_space 10); assumption).
+    cbn [scan_sign]. rewrite Hm, Hp.
+    change (d0 :: t ++ rest) with ((d0 :: t) ++ rest). rewrite <- E.
+    rewrite scan_int_body_dec by assumption.
+    assert (Hst : store_int (cf_int_signext cf) spec_li false mag = z).
+    { unfold store_int. cbn [spec_li n_conv n_long].
+      replace (conv_signed 105) with true by reflexivity.
+      subst mag. rewrite Z2N.id by lia.
+      destruct (Z.ltb_spec (two63 - 1) (Z.abs z)); [unfold two63 in *; lia|].
+      change two64 with (2 * two63)%Z. rewrite wrap_signed_id; unfold two63 in *; lia. }
+    rewrite Hst. reflexivity.
+Qed.
+
+(* ================================================================== sequences with separators *)
+
+(* the reading counterpart of a written item, and the values a sequence carries *)
+Definition sitem_of (it : pitem) : sitem :=
+  match it with
+  | PLit t => SLit t
+  | PShow v => SLook (ty_of v)
+  | PNum sp _ => SNum sp
+  end.
+
+(* one conversion applied to the remaining input *)
+Definition conv_reads (cf : config) (si : sitem) (inp : text) : option (value * nat) :=
+  match si with
+  | SLit _ => None
+  | SLook ty => look_value cf ty inp
+  | SNum sp => scan_num cf sp inp
+  end.
+
+(* seq_reads cf its rest sits vs: every non-literal item of `its`, read by the corresponding element
+   of `sits` from its own text followed by everything written after it (and then `rest`), yields
+   the corresponding element of vs and consumes exactly its own text *)
+Inductive seq_reads (cf : config) : list pitem -> text -> list sitem -> list value -> Prop :=
+| sr_nil : forall rest, seq_reads cf [] rest [] []
+| sr_lit : forall t its rest sits vs,
+    seq_reads cf its rest sits vs -> seq_reads cf (PLit t :: its) rest (SLit t :: sits) vs
+| sr_val : forall it si its rest sits v vs,
+    (forall t, si <> SLit t) ->
+    conv_reads cf si (print_item cf it ++ print_items cf its ++ rest) = Some (v, length (print_item cf it)) ->
+    seq_reads cf its rest sits vs ->
+    seq_reads cf (it :: its) rest (si :: sits) (v :: vs).
+
+Lemma skipn_length_app : forall (a b : text), skipn (length a) (a ++ b) = b.
+Proof. intros a b. rewrite skipn_app, skipn_all, Nat.sub_diag. reflexivity. Qed.
+
+(* String source: scanning at position |pre| reads the values back and returns the position
+   just after the written text *)
+Lemma scan_str_seq : forall cf its rest sits vs, seq_reads cf its rest sits vs ->
+  forall pre acc,
+  scan_str cf (pre ++ print_items cf its ++ rest) (length pre) sits acc
+  = SOk (acc ++ vs) (length pre + length (print_items cf its)).
+Proof.
+  intros cf its rest sits vs H. induction H as [rest | t its rest sits vs H IH | it si its rest sits v vs Hs Hc H IH];
+    intros pre acc.
+  - simpl. rewrite app_nil_r. f_equal. lia.
+  - cbn [scan_str print_items flat_map print_item].
+    replace (pre ++ (t ++ flat_map (print_item cf) its) ++ rest)
+      with ((pre ++ t) ++ print_items cf its ++ rest)
+      by (unfold print_items; now rewrite <- !app_assoc).
+    replace (length pre + length t)%nat with (length (pre ++ t)) by (rewrite app_length; lia).
+    rewrite IH. f_equal. unfold print_items. rewrite !app_length. lia.
+  - assert (Hskip : skipn (length pre) (pre ++ print_items cf (it :: its) ++ rest)
+                    = print_item cf it ++ print_items cf its ++ rest).
+    { rewrite skipn_length_app. unfold print_items. cbn [flat_map]. now rewrite <- app_assoc. }
+    assert (Hnext : forall acc', scan_str cf (pre ++ print_items cf (it :: its) ++ rest)
+                      (length pre + length (print_item cf it)) sits acc'
+                    = SOk (acc' ++ vs) (length pre + length (print_items cf (it :: its)))).
+    { intros acc'.
+      replace (pre ++ print_items cf (it :: its) ++ rest)
+        with ((pre ++ print_item cf it) ++ print_items cf its ++ rest)
+        by (unfold print_items; cbn [flat_map]; now rewrite <- !app_assoc).
+      replace (length pre + length (print_item cf it))%nat with (length (pre ++ print_item cf it))
+        by (rewrite app_length; lia).
+      rewrite IH. f_equal. unfold print_items. cbn [flat_map]. rewrite !app_length. lia. }
+    destruct si as [t | ty | sp]; [exfalso; now apply (Hs t) | |]; cbn [scan_str]; cbn [conv_reads] in Hc;
+      rewrite Hskip, Hc, Hnext; f_equal; rewrite <- app_assoc; reflexivity.
+Qed.
+
+(* File source: literal pieces must be matched by scanf; for text without white space that is
+   character-by-character equality *)
+Definition lit_plain (t : text) : Prop := Forall (fun c => is_space c = false) t.
+
+Lemma match_lit_plain : forall t inp, lit_plain t -> match_lit t (t ++ inp) = inp.
+Proof.
+  induction t as [|c r IH]; intros inp H; [reflexivity|].
+  inversion H as [|? ? Hc Hr]; subst. cbn [match_lit app]. rewrite Hc, N.eqb_refl. now apply IH.
+Qed.
+
+Definition lits_plain (its : list pitem) : Prop :=
+  Forall (fun it => match it with PLit t => lit_plain t | _ => True end) its.
+
+Lemma scan_file_seq : forall cf its rest sits vs, seq_reads cf its rest sits vs -> lits_plain its ->
+  forall pos acc,
+  scan_file cf (print_items cf its ++ rest) pos sits acc
+  = SOk (acc ++ vs) (pos + length (print_items cf its)).
+Proof.
+  intros cf its rest sits vs H. induction H as [rest | t its rest sits vs H IH | it si its rest sits v vs Hs Hc H IH];
+    intros Hl pos acc.
+  - simpl. rewrite app_nil_r. f_equal. lia.
+  - inversion Hl as [|? ? Ht Hl']; subst.
+    cbn [scan_file print_items flat_map print_item]. rewrite <- app_assoc.
+    rewrite match_lit_plain by assumption. fold (print_items cf its).
+    rewrite IH by assumption. f_equal. unfold print_items. rewrite app_length. lia.
+  - inversion Hl as [|? ? Ht Hl']; subst.
+    assert (Hnext : forall acc', scan_file cf (skipn (length (print_item cf it)) (print_items cf (it :: its) ++ rest))
+                      (pos + length (print_item cf it)) sits acc'
+                    = SOk (acc' ++ vs) (pos + length (print_items cf (it :: its)))).
+    { intros acc'. unfold print_items. cbn [flat_map]. rewrite <- app_assoc, skipn_length_app.
+      fold (print_items cf its). rewrite IH by assumption. f_equal. unfold print_items. rewrite app_length. lia. }
+    assert (Htxt : print_items cf (it :: its) ++ rest = print_item cf it ++ print_items cf its ++ rest).
+    { unfold print_items. cbn [flat_map]. now rewrite <- app_assoc. }
+    destruct si as [t | ty | sp]; [exfalso; now apply (Hs t) | |]; cbn [scan_file]; cbn [conv_reads] in Hc;
+      rewrite Htxt at 1; rewrite Hc, Hnext; f_equal; rewrite <- app_assoc; reflexivity.
+Qed.
+
+(* ================================================================== show / look of sequences *)
+
+(* what the proofs need from the C text (Generated.v) *)
+Record config_ok (cf : config) : Prop := {
+  ok_tables : esc_tables_ok (cf_show_esc cf) (cf_look_esc cf) = true;
+  ok_cont : cf_look_cont cf = true }.
+
+Definition int64 (z : Z) : Prop := (- two63 <= z < two63)%Z.
+
+(* values that show/look handle exactly: NUL-free Strings (a C string cannot hold a NUL) and Ints *)
+Definition showable (v : value) : Prop :=
+  match v with VStr s => nul_free s | VInt z => int64 z | VFloat _ => False end.
+
+(* the text after a value must not continue its token (a String ends at its closing quote) *)
+Definition ends_token (v : value) (after : text) : Prop :=
+  match v with VInt _ => stops_int after | _ => True end.
+
+Lemma show_value_reads : forall cf v after, config_ok cf -> showable v -> ends_token v after ->
+  look_value cf (ty_of v) (show_value cf v ++ after) = Some (v, length (show_value cf v)).
+Proof.
+  intros cf v after [Ht Hc] Hv He. destruct v as [z | b | s]; [| destruct Hv |].
+  - cbn [ty_of look_value show_value]. now apply int_li_roundtrip.
+  - cbn [ty_of look_value show_value]. rewrite Hc.
+    rewrite string_roundtrip by assumption. reflexivity.
+Qed.
+
+Fixpoint show_seq_ok (cf : config) (its : list pitem) (rest : text) : Prop :=
+  match its with
+  | [] => True
+  | PLit _ :: r => show_seq_ok cf r rest
+  | PShow v :: r => showable v /\ ends_token v (print_items cf r ++ rest) /\ show_seq_ok cf r rest
+  | PNum _ _ :: _ => False
+  end.
+
+Definition values_of (its : list pitem) : list value :=
+  flat_map (fun it => match it with PLit _ => [] | PShow v => [v] | PNum _ v => [v] end) its.
+
+Lemma show_seq_reads : forall cf its rest, config_ok cf -> show_seq_ok cf its rest ->
+  seq_reads cf its rest (map sitem_of its) (values_of its).
+Proof.
+  intros cf its rest Hcf. induction its as [|it its IH]; intros H.
+  - constructor.
+  - destruct it as [t | v | sp v]; cbn [show_seq_ok] in H.
+    + cbn [map sitem_of values_of flat_map app]. constructor. now apply IH.
+    + destruct H as (Hv & He & H). cbn [map sitem_of]. unfold values_of. cbn [flat_map app].
+      constructor; [intros t; discriminate | | now apply IH].
+      cbn [conv_reads print_item]. now apply show_value_reads.
+    + destruct H.
+Qed.
+
+(* C15 for sequences of Strings and Ints written with %$ and separated by literal text, read back
+   from a String at any start position ... *)
+Theorem show_seq_roundtrip_string : forall cf its pre rest, config_ok cf -> show_seq_ok cf its rest ->
+  scan_str cf (fst (print_to_string cf pre (length pre) its) ++ rest) (length pre) (map sitem_of its) []
+  = SOk (values_of its) (snd (print_to_string cf pre (length pre) its)).
+Proof.
+  intros cf its pre rest Hcf H. unfold print_to_string. cbn [fst snd].
+  rewrite firstn_all, <- app_assoc.
+  now rewrite (scan_str_seq cf its rest _ _ (show_seq_reads cf its rest Hcf H)).
+Qed.
+
+(* ... and from a File (the stream stands just after the bytes written before) *)
+Theorem show_seq_roundtrip_file : forall cf its old rest, config_ok cf -> show_seq_ok cf its rest ->
+  lits_plain its ->
+  scan_file cf (skipn (length old) (fst (print_to_file cf old (length old) its) ++ rest)) (length old)
+    (map sitem_of its) []
+  = SOk (values_of its) (snd (print_to_file cf old (length old) its)).
+Proof.
+  intros cf its old rest Hcf H Hl. unfold print_to_file. cbn [fst snd].
+  rewrite <- app_assoc, skipn_length_app.
+  now rewrite (scan_file_seq cf its rest _ _ (show_seq_reads cf its rest Hcf H) Hl).
+Qed.
+
+(* the code as found (no `continue` after the escape switch) does not round-trip: D7 *)
+Lemma look_without_continue_refuted : forall se le,
+  assoc 10 se = Some 110 -> assoc 110 le = Some 10 ->
+  exists s, nul_free s /\ look_string false le (show_string se s) <> LDone s (length (show_string se s)).
+Proof.
+  intros se le H1 H2. exists [10]. split; [repeat constructor; discriminate|].
+  unfold show_string, show_char. cbn [flat_map app]. rewrite H1. cbn [app look_string look_loop].
+  replace (c_quote =? c_quote) with true by reflexivity.
+  replace (c_bslash =? c_quote) with false by reflexivity.
+  replace (c_bslash =? c_bslash) with true by reflexivity.
+  rewrite H2. cbn. discriminate.
+Qed.
